@@ -175,7 +175,7 @@ def c13_line_structural(kind: int, start: int, end: int, ds: int, de: int, ap: i
 # --------------------------------------------------------------------------
 # circRNA
 # --------------------------------------------------------------------------
-def _circ(n, s0, l0, g0, l1, g1, l2, intron_mask, gpos):
+def _circ(n, s0, l0, g0, l1, g1, l2, intron_mask, gpos, descending=False):
     lens = [l0, l1, l2][:n]
     gaps = [0, g0, g1][:n]
     frags = []
@@ -186,6 +186,8 @@ def _circ(n, s0, l0, g0, l1, g1, l2, intron_mask, gpos):
                                 location=FeatureLocation(seqname='G1', start=pos, end=pos + lens[i]),
                                 type='exon'))
         pos += lens[i]
+    if descending:
+        frags.reverse()            # parseCIRCexplorer lists the fragments of a minus-strand gene in descending order
     introns = [i + 1 for i in range(n) if (intron_mask >> i) & 1]
     m = CircRNAModel('T1', frags, introns, 'CIRC-T1-E1-E2', 'G1', 'SYM', f'chr1:{gpos}')
     line = m.to_string()
@@ -226,6 +228,22 @@ def c13_circ_line(n: int, s0: int, l0: int, g0: int, l1: int, g1: int, l2: int, 
     post: _ >= 0
     """
     return _circ(n, s0, l0, g0, l1, g1, l2, mask, gpos)
+
+
+@cond('C13', bounds='circRNA record with 2..3 fragments stored in DESCENDING gene order (negative offsets, as written for '
+      'minus-strand genes), symbolic offsets and lengths < 5000, every intron mask', encodes=[
+      'moPepGen.circ.CircRNA.CircRNAModel.to_string', 'moPepGen.circ.io.line_to_circ_model'], codes=CODES_C, tokens=True,
+      timeout=400)
+def c13_circ_line_descending(n: int, s0: int, l0: int, g0: int, l1: int, g1: int, l2: int, mask: int,
+                             gpos: int) -> int:
+    """
+    pre: 2 <= n <= 3
+    pre: 0 <= s0 < 5000 and 1 <= l0 < 5000 and 1 <= l1 < 5000 and 1 <= l2 < 5000
+    pre: 1 <= g0 < 5000 and 1 <= g1 < 5000
+    pre: 0 <= mask <= 7 and 0 <= gpos < 59000
+    post: _ >= 0
+    """
+    return _circ(n, s0, l0, g0, l1, g1, l2, mask, gpos, True)
 
 
 # --------------------------------------------------------------------------
